@@ -10,7 +10,9 @@ Tie to the source (magicbot/magic_tunable.py as it is in $VERIF_REPO now):
     instances under all owner kinds, pre-published topics, random
     interleavings of attribute writes/reads with writes/reads of an
     INDEPENDENT publisher/subscriber on the same NT instance, re-binding;
-    every observation is compared with Model.run inside Coq;
+    owner classes whose instances can be FALSY (__len__ / __bool__ / a list
+    subclass), the truthiness changing inside the history;
+    every observation is compared with Model.xrun inside Coq;
   * MagicRobot binds components / autonomous modes / itself (one real robot in a
     subprocess), keys compared with Model.owner_key inside Coq;
   * @feedback key/type derivation (reused by C11): feedback_key_cases(ctx).
@@ -412,14 +414,72 @@ def spelling_to_coq(sp):
     return "(SpAnn %s %s %s)" % (sp[2], coq_bool(sp[0]), coq_bool(sp[1]))
 
 
-def class_source(decls, name, split, src):
+# ---- owner classes whose instances can be falsy ---------------------------------
+#   tkind (per class): None  an ordinary class (bool(obj) is always True)
+#                      "len"  container-like: __len__ returns self._c09_n (0 at creation)
+#                      "bool" __bool__ returns self._c09_b (False at creation)
+#                      "list" a subclass of list (empty at creation)
+#   the methods live on the base-most generated class (inherited when the class is split)
+TRUTH_SRC = {"len": ["    _c09_n = 0", "    def __len__(self):", "        return self._c09_n"],
+             "bool": ["    _c09_b = False", "    def __bool__(self):", "        return self._c09_b"]}
+
+
+def truth_ns(tkind):
+    if tkind == "len":
+        return {"_c09_n": 0, "__len__": lambda self: self._c09_n}
+    if tkind == "bool":
+        return {"_c09_b": False, "__bool__": lambda self: self._c09_b}
+    return {}
+
+
+def set_truth(obj, tkind, val):
+    """change the owner's own state; returns bool(obj) afterwards."""
+    if tkind == "len":
+        obj._c09_n = int(val)
+    elif tkind == "bool":
+        obj._c09_b = bool(val)
+    elif tkind == "list":
+        obj[:] = [None] * int(val)
+    return bool(obj)
+
+
+def truth_initial(tkind):
+    return {"len": 0, "list": 0, "bool": False}.get(tkind)
+
+
+def truth_to_coq(tkind, val):
+    if tkind in ("len", "list"):
+        return "(TLen %s)" % coq_N(int(val))
+    if tkind == "bool":
+        return "(TBool %s)" % coq_bool(bool(val))
+    return "TPlain"
+
+
+def truth_is_falsy(tkind, val):
+    return tkind is not None and not val
+
+
+def describe_truth(tkind, val):
+    if tkind is None:
+        return "ordinary owner"
+    if tkind == "bool":
+        return "owner class defines __bool__, now %r" % bool(val)
+    return "owner class %s, now len %d" % ("defines __len__" if tkind == "len" else "is a list subclass", int(val))
+
+
+def class_source(decls, name, split, src, tkind=None):
     """(source text, {default variable: object}) of the module defining class `name`."""
     env = {}
     lines = []
 
     def body(cname, base, ds, k0):
+        root = base is None
+        if root and tkind == "list":
+            base = "list"
         lines.append("class %s%s:" % (cname, "(%s)" % base if base else ""))
-        if not ds:
+        if root and tkind in TRUTH_SRC:
+            lines.extend(TRUTH_SRC[tkind])
+        elif not ds:
             lines.append("    pass")
         for k, d in enumerate(ds):
             var = "_d%d" % (k0 + k)
@@ -450,11 +510,11 @@ def class_source(decls, name, split, src):
 _MODN = [0]
 
 
-def make_class_src(mt, decls, name, split, src):
+def make_class_src(mt, decls, name, split, src, tkind=None):
     """the class statement as it stands in a user's module (typing.get_type_hints resolves string
     annotations in sys.modules[cls.__module__].__dict__: the module is registered while it runs)."""
     import types
-    text, env = class_source(decls, name, split, src)
+    text, env = class_source(decls, name, split, src, tkind)
     _MODN[0] += 1
     modname = "c09gen_%d" % _MODN[0]
     mod = types.ModuleType(modname)
@@ -468,13 +528,14 @@ def make_class_src(mt, decls, name, split, src):
     return mod.__dict__[name]
 
 
-def make_class(mt, decls, name="Gen", split=0, src=0):
+def make_class(mt, decls, name="Gen", split=0, src=0, tkind=None):
     """a class with the tunables `decls` (dict: attr default hint form flavor q subtable wd);
-    the first `split` of them live on a base class (dir(cls) must find them)."""
+    the first `split` of them live on a base class (dir(cls) must find them); tkind: how bool()
+    of an instance is computed (see TRUTH_SRC)."""
     import typing
     src = eff_src(decls, src)
     if src:
-        return make_class_src(mt, decls, name, split, src)
+        return make_class_src(mt, decls, name, split, src, tkind)
 
     def ns_of(ds):
         ns, ann = {}, {}
@@ -502,10 +563,11 @@ def make_class(mt, decls, name="Gen", split=0, src=0):
             ns["__annotations__"] = ann
         return ns
 
-    bases = (object,)
+    bases = (list,) if tkind == "list" else (object,)
     if split:
-        bases = (type(name + "Base", (object,), ns_of(decls[:split])),)
-    return type(name, bases, ns_of(decls[split:]))
+        bases = (type(name + "Base", bases, dict(truth_ns(tkind), **ns_of(decls[:split]))),)
+        return type(name, bases, ns_of(decls[split:]))
+    return type(name, bases, dict(truth_ns(tkind), **ns_of(decls)))
 
 
 def check_hint_sources():
@@ -676,7 +738,9 @@ def doc_topic(d, h):
 # histories
 #   case = {"classes": [[decl..]..], "split": [n..], "insts": [class index..],
 #           "ops": [["setup",i,prefix,cname] | ["pyw",i,attr,pv] | ["pyr",i,attr]
-#                   | ["ntw",key,ts,pv] | ["ntr",key]]}
+#                   | ["ntw",key,ts,pv] | ["ntr",key]
+#                   | ["truth",i,n or b]   the owner's own state changes: len(obj) = n / bool(obj) = b],
+#           "tkind": [None|"len"|"bool"|"list" per class]   (absent: ordinary classes)}
 # ---------------------------------------------------------------------------
 KINDS = [(b, False) for b in ["bool", "int", "float", "str", "bytes", "T2", "T3"]] + \
         [(b, True) for b in ["bool", "int", "float", "str", "T2", "T3"]]
@@ -742,9 +806,10 @@ NAME_POOL = ["a", "ab", "a_b", "b", "Mode A", "robot", "components", "x"]
 def gen_case(r, tag):
     """one history; `tag` makes every topic name of the case unique in the NT instance."""
     ncls = r.choice([1, 1, 2])
-    classes, split, srcs = [], [], []
+    classes, split, srcs, tkinds = [], [], [], []
     for c in range(ncls):
         srcs.append(r.choice([0, 1, 2, 2]))
+        tkinds.append(r.choice([None, None, None, None, "len", "len", "bool", "list"]))
         n = r.choice([1, 2, 3, 4, 5, 6])
         attrs = r.sample(ATTR_POOL, n)
         ds = [gen_decl(r, "%s_%s" % (a, tag)) for a in attrs]
@@ -787,6 +852,14 @@ def gen_case(r, tag):
     ops = []
     bound = {}                                      # i -> (prefix, cname)
     known_keys = []                                 # (key, ts, kind)
+    can_be_falsy = [i for i in range(ninst) if tkinds[insts[i]] is not None]
+
+    def gen_truth(i):
+        # falsy is where an owner differs from an ordinary object: it is the common state
+        # (every such owner is created falsy, and most setups / reads happen while it is)
+        if tkinds[insts[i]] == "bool":
+            return ["truth", i, r.random() < 0.3]
+        return ["truth", i, r.choice([0, 0, 0, 1, 2, 5])]
 
     def keys_of(i, owner):
         out = []
@@ -811,6 +884,9 @@ def gen_case(r, tag):
     nops = r.randrange(6, 28)
     while nops > 0 or pending:
         nops -= 1
+        if can_be_falsy and r.random() < 0.12:
+            ops.append(gen_truth(r.choice(can_be_falsy)))
+            continue
         if pending and (not bound or r.random() < 0.35):
             i = pending.pop()
             ops.append(["setup", i, owners[i][0], owners[i][1]])
@@ -841,18 +917,40 @@ def gen_case(r, tag):
             known_keys += keys_of(i, owners[i])
     # closing reads: every attribute of every instance, every known key
     for i in range(ninst):
+        if i in can_be_falsy and r.random() < 0.5:
+            ops.append(gen_truth(i))
         for d in classes[insts[i]]:
             if r.random() < 0.5:
                 ops.append(["pyr", i, d["attr"]])
     for key, ts, kind in known_keys[:8]:
         if r.random() < 0.5:
             ops.append(["ntr", key])
-    return {"tag": tag, "classes": classes, "split": split, "src": srcs, "insts": insts, "ops": ops}
+    return {"tag": tag, "classes": classes, "split": split, "src": srcs, "tkind": tkinds, "insts": insts, "ops": ops}
 
 
 def case_src(case, k):
     """how class k of the history is written (absent in old corpus files: type())."""
     return (case.get("src") or [0] * len(case["classes"]))[k]
+
+
+def case_tkind(case, k):
+    """how bool() of an instance of class k is computed (absent in old corpus files: ordinary)."""
+    return (case.get("tkind") or [None] * len(case["classes"]))[k]
+
+
+def inst_tkind(case, i):
+    return case_tkind(case, case["insts"][i])
+
+
+def truth_states(case):
+    """per op: the truthiness state (kind, value) of every instance BEFORE the op."""
+    cur = [truth_initial(inst_tkind(case, i)) for i in range(len(case["insts"]))]
+    out = []
+    for op in case["ops"]:
+        out.append(list(cur))
+        if op[0] == "truth" and inst_tkind(case, op[1]) is not None:
+            cur[op[1]] = op[2]
+    return out
 
 
 def exec_case(mt, case):
@@ -861,7 +959,7 @@ def exec_case(mt, case):
     writer = NtWriter()
     keep.append(writer)
     try:
-        clss = [make_class(mt, ds, "Cls%d" % k, case["split"][k], case_src(case, k))
+        clss = [make_class(mt, ds, "Cls%d" % k, case["split"][k], case_src(case, k), case_tkind(case, k))
                 for k, ds in enumerate(case["classes"])]
     except Exception as e:
         return [["classraise", type(e).__name__, str(e)[:120]]] * len(case["ops"])
@@ -871,6 +969,16 @@ def exec_case(mt, case):
     obs = []
     for op in case["ops"]:
         try:
+            if op[0] == "truth":
+                # no library call: the owner's own state changes (an ordinary class has none)
+                tk = inst_tkind(case, op[1])
+                if tk is None:
+                    obs.append(["done"])
+                elif set_truth(objs[op[1]], tk, op[2]) == (not truth_is_falsy(tk, op[2])):
+                    obs.append(["done"])
+                else:
+                    obs.append(["bad", "harness: bool(owner) did not follow its state"])
+                continue
             if op[0] in ("pyw", "pyr") and (op[1] not in isbound or op[2].startswith("_")):
                 # not a bound tunable: the property leaves the behaviour open -> masked
                 try:
@@ -906,6 +1014,9 @@ def exec_case(mt, case):
                     obs.append(["err", type(e).__name__])
                     continue
                 k = kinds[op[1]].get(op[2])
+                if isinstance(v, mt.tunable):
+                    obs.append(["self"])                          # the descriptor object came back
+                    continue
                 try:
                     obs.append(["val", from_py(v, k[0], k[1])])
                 except ValueError:
@@ -932,6 +1043,10 @@ def obs_to_coq(o):
         return "OErr"
     if o[0] == "any":
         return "OAny"
+    if o[0] == "self":
+        return "OSelf"
+    if o[0] == "done":
+        return "ODone"
     if o[0] == "nt":
         if o[1] is None:
             return "(ONt None)"
@@ -956,19 +1071,29 @@ def case_to_coq(case, obs):
     lets = "".join("let c%d := %s in " % (k, coq_list([decl_to_coq(d, eff_src(ds, case_src(case, k))) for d in ds]))
                    for k, ds in enumerate(case["classes"]))
     ops = []
+    pre = []
+    # creation of the owner objects: an instance of a class with __len__ / __bool__ starts falsy
+    for i in range(len(case["insts"])):
+        tk = inst_tkind(case, i)
+        if tk is not None:
+            ops.append("XSetTruth %s %s" % (coq_nat(i), truth_to_coq(tk, truth_initial(tk))))
+            pre.append("ODone")
     for op in case["ops"]:
         if op[0] == "setup":
-            ops.append("Setup %s c%d %s %s" % (coq_nat(op[1]), case["insts"][op[1]],
-                                              coq_opt(op[2], coq_string), cs(op[3])))
+            ops.append("XOp (Setup %s c%d %s %s)" % (coq_nat(op[1]), case["insts"][op[1]],
+                                                    coq_opt(op[2], coq_string), cs(op[3])))
         elif op[0] == "pyw":
-            ops.append("PyWrite %s %s %s" % (coq_nat(op[1]), cs(op[2]), to_coq(op[3])))
+            ops.append("XOp (PyWrite %s %s %s)" % (coq_nat(op[1]), cs(op[2]), to_coq(op[3])))
         elif op[0] == "pyr":
-            ops.append("PyRead %s %s" % (coq_nat(op[1]), cs(op[2])))
+            ops.append("XOp (PyRead %s %s)" % (coq_nat(op[1]), cs(op[2])))
         elif op[0] == "ntw":
-            ops.append("NtWrite %s %s %s" % (cs(op[1]), NTYPE_COQ[op[2]], to_coq(op[3])))
+            ops.append("XOp (NtWrite %s %s %s)" % (cs(op[1]), NTYPE_COQ[op[2]], to_coq(op[3])))
+        elif op[0] == "truth":
+            tk = inst_tkind(case, op[1])
+            ops.append("XSetTruth %s %s" % (coq_nat(op[1]), truth_to_coq(tk, op[2])))
         else:
-            ops.append("NtRead %s" % cs(op[1]))
-    return "(%s(%s, %s))" % (lets, coq_list(ops), coq_list([obs_to_coq(o) for o in obs]))
+            ops.append("XOp (NtRead %s)" % cs(op[1]))
+    return "(%s(%s, %s))" % (lets, coq_list(ops), coq_list(pre + [obs_to_coq(o) for o in obs]))
 
 
 CASES_HEADER = ("From Coq Require Import String List Bool ZArith NArith.\n"
@@ -984,8 +1109,8 @@ def cases_file(pairs):
         defs = _STRTAB.defs()
     finally:
         _STRTAB = None
-    return (CASES_HEADER + defs + "Definition cases : list (list op * list obs) :=\n [%s].\n"
-            "Eval vm_compute in (bad_from hist_ok 0 cases).\n" % body)
+    return (CASES_HEADER + defs + "Definition cases : list (list xop * list obs) :=\n [%s].\n"
+            "Eval vm_compute in (bad_from xhist_ok 0 cases).\n" % body)
 
 
 # ---------------------------------------------------------------------------
@@ -996,6 +1121,11 @@ def oracle_case(case, obs):
     """first clause of C09 that the observations of this history violate, or None."""
     topics = {}                                     # documented key -> [type string, pv]
     bind = {}                                       # instance -> {attr: (key, ts)}
+    truths = truth_states(case)
+
+    def owner_state(n, i):
+        return describe_truth(inst_tkind(case, i), truths[n][i])
+
     for n, (op, o) in enumerate(zip(case["ops"], obs)):
         def fail(fp, what):
             return {"kind": "input", "fingerprint": fp, "op_index": n, "op": op, "observed": o,
@@ -1012,9 +1142,12 @@ def oracle_case(case, obs):
             return fail("c09-unusable", "class with unsupported tunables %s: %r" % (unsupported, o))
         if o[0] == "bad":
             return fail("c09-unusable", "implementation produced %r" % (o,))
+        if op[0] == "truth":
+            continue                                 # the owner's own state: no clause of C09 involved
         if op[0] == "setup":
             if o != ["setup", True]:
-                return fail("c09-setup-raises", "setup_tunables raised %s for a class of supported tunables" % o[2:])
+                return fail("c09-setup-raises", "setup_tunables raised %s for a class of supported tunables (%s)"
+                            % (o[2:], owner_state(n, op[1])))
             b = {}
             for d in case["classes"][case["insts"][op[1]]]:
                 if d["attr"].startswith("_"):
@@ -1031,7 +1164,7 @@ def oracle_case(case, obs):
                 pass                                 # not bound: the property does not say
             else:
                 if o[0] != "wrote":
-                    return fail("c09-write-raises", "attribute assignment raised %r" % (o,))
+                    return fail("c09-write-raises", "attribute assignment raised %r (%s)" % (o, owner_state(n, op[1])))
                 topics[e[0]] = [e[1], canon(op[3])]
         elif op[0] == "pyr":
             e = bind.get(op[1], {}).get(op[2])
@@ -1040,9 +1173,10 @@ def oracle_case(case, obs):
             else:
                 want = topics[e[0]][1]
                 if o != ["val", want]:
+                    got = "the tunable object itself (not a value)" if o == ["self"] else json.dumps(o)
                     return fail("c09-read-not-latest",
                                 "attribute read gives %s, the latest value written to its topic %s (from either side, "
-                                "or the default at setup) is %s" % (json.dumps(o), e[0], json.dumps(want)))
+                                "or the default at setup) is %s; %s" % (got, e[0], json.dumps(want), owner_state(n, op[1])))
         elif op[0] == "ntw":
             topics[op[1]] = [op[2], canon(op[3])]
         elif op[0] == "ntr":
@@ -1070,6 +1204,9 @@ def describe_classes(case):
     for k, ds in enumerate(case["classes"]):
         src = eff_src(ds, case_src(case, k))
         how = {0: "type()", 1: "module", 2: "module with `from __future__ import annotations`"}[src]
+        tk = case_tkind(case, k)
+        if tk is not None:
+            how += {"len": ", defines __len__", "bool": ", defines __bool__", "list": ", subclass of list"}[tk]
         out.append("[%s] %s" % (how, "; ".join(describe_decl(d, src) for d in ds)))
     return " | ".join(out)
 
@@ -1122,6 +1259,18 @@ def shrink_case(mt, case, fresh_tag, budget=150):
                 if v is not None and v["fingerprint"] == fp:
                     best, changed = cand, True
                     ds = best["classes"][ci]
+    # the owner's truthiness: is a class with __len__ / __bool__ needed for the failure?
+    for ci in range(len(best["classes"])):
+        if budget <= 0 or case_tkind(best, ci) is None:
+            continue
+        cand = json.loads(json.dumps(best))
+        cand["tkind"] = [case_tkind(best, k) for k in range(len(best["classes"]))]
+        cand["tkind"][ci] = None
+        cand["ops"] = [op for op in cand["ops"] if not (op[0] == "truth" and cand["insts"][op[1]] == ci)]
+        budget -= 1
+        v = failing(cand)
+        if v is not None and v["fingerprint"] == fp:
+            best = cand
     # the spelling: is the way the class / the hint is written needed for the failure?
     for ci in range(len(best["classes"])):
         for simpler in (0, 1):
@@ -1344,17 +1493,25 @@ class Comp:
     idsC09: "typing.Sequence[int]" = tunable(())
     flagC09 = tunable(True, subtable="cfg")
     def execute(self): pass
+class Hopper:
+    """container-like component: empty (falsy) all the time"""
+    capC09 = tunable(5)
+    def __init__(self): self.balls = []
+    def __len__(self): return len(self.balls)
+    def execute(self): pass
 class R(magicbot.MagicRobot):
     left: Comp
     right: Comp
+    hopper: Hopper
     topC09 = tunable("x")
     limC09 = tunable[tuple[float, ...]]((), subtable="s/t")
     def createObjects(self): pass
 r = R(); r.robotInit()
 inst = ntcore.NetworkTableInstance.getDefault()
 r.left.gainC09 = 9
+r.hopper.capC09 = 6
 out = {"topics": sorted([t.getName(), t.getTypeString()] for t in inst.getTopics() if "C09" in t.getName()),
-       "left": r.left.gainC09, "right": r.right.gainC09}
+       "left": r.left.gainC09, "right": r.right.gainC09, "hopper": repr(r.hopper.capC09), "hopper_falsy": not r.hopper}
 print("C09JSON" + json.dumps(out))
 '''
 MODE_SRC = '''from __future__ import annotations
@@ -1375,13 +1532,20 @@ ROBOT_EXPECT = [  # (owner, subtable, attr, ntype)
     # string annotations: a quoted hint in the component, a postponed one (PEP 563) in the mode's module
     ('(OComponent "left")', "None", "idsC09", "NIntegerArr"), ('(OComponent "right")', "None", "idsC09", "NIntegerArr"),
     ('(OAutonomous "Mode A")', "None", "ratesC09", "NDoubleArr"),
+    # a container-like component whose instance is falsy
+    ('(OComponent "hopper")', "None", "capC09", "NInteger"),
 ]
 ROBOT_DOC = {"/components/left/gainC09": "int", "/components/right/gainC09": "int",
              "/components/left/cfg/flagC09": "boolean", "/components/right/cfg/flagC09": "boolean",
              "/robot/topC09": "string", "/robot/s/t/limC09": "double[]",
              "/autonomous/Mode A/speedC09": "double", "/autonomous/Mode A/cfg/burstC09": "int[]",
              "/components/left/idsC09": "int[]", "/components/right/idsC09": "int[]",
-             "/autonomous/Mode A/ratesC09": "double[]"}
+             "/autonomous/Mode A/ratesC09": "double[]", "/components/hopper/capC09": "int"}
+
+
+def robot_values_ok(rob):
+    """left.gain = 9 reaches only left; the empty (falsy) hopper reads back what was assigned"""
+    return (rob["left"] == 9 and rob["right"] == 3 and rob.get("hopper") == "6" and rob.get("hopper_falsy") is True)
 
 
 def run_robot(work):
@@ -1525,6 +1689,8 @@ def run(ctx):
     ctx.assumptions.append(
         "C09: ntcore modelled as a finite map key -> (type, value); type conflicts on an existing topic, values that "
         "do not fit the topic type, unpublishing and the network are ntcore behaviour outside the model; "
+        "bool(owner) modelled as TPlain | TLen n | TBool b (classes defining both __bool__ and __len__, or a __bool__/"
+        "__len__ that raises or has side effects, are outside the generated domain); "
         "the hint enters the model as it is WRITTEN (subscript / annotation H, tunable[H], ClassVar[..]; evaluated, "
         "postponed by `from __future__ import annotations`, quoted, quoted argument) and Model.set_name_hint resolves it; "
         "a string annotation is identified with the expression it denotes (its names resolve in the module namespace "
@@ -1595,7 +1761,7 @@ def run(ctx):
     if rob is not None:
         rc, out = ctx.coq_file("robot_0", robot_file(rob))
         lists = parse_eval_lists(out) if rc == 0 else []
-        rob_ok = rc == 0 and len(lists) == 1 and lists[0] == [] and rob["left"] == 9 and rob["right"] == 3
+        rob_ok = rc == 0 and len(lists) == 1 and lists[0] == [] and robot_values_ok(rob)
         ctx.obligation("corr:robot_0 (owner_key of components / autonomous mode / robot == topics of a real MagicRobot)",
                        rob_ok, out[-1500:] + json.dumps(rob))
 
@@ -1610,8 +1776,13 @@ def run(ctx):
     for c in cases:
         o = exec_case(mt, c)
         pairs.append((c, o))
-        for op in c["ops"]:
+        tstates = truth_states(c)
+        for nop, op in enumerate(c["ops"]):
             ctx.count("op=%s" % op[0])
+            if op[0] in ("setup", "pyw", "pyr"):
+                tk = inst_tkind(c, op[1])
+                ctx.count("%s:owner=%s" % (op[0], "ordinary" if tk is None else
+                                           "%s/%s" % (tk, "falsy" if truth_is_falsy(tk, tstates[nop][op[1]]) else "truthy")))
             if op[0] == "setup":
                 ctx.count("owner=%s" % (op[2] if op[2] in ("components", "autonomous") else
                                         "robot" if op[3] == "robot" else "prefix-None-other" if op[2] is None else "other-prefix"))
@@ -1629,6 +1800,8 @@ def run(ctx):
                 ctx.count("writeDefault=%s" % d["wd"])
                 ctx.count("subtable=%s" % ("none" if d["subtable"] is None else "empty" if d["subtable"] == "" else "yes"))
         ctx.count("instances=%d" % len(c["insts"]))
+        for i in range(len(c["insts"])):
+            ctx.count("owner-class=%s" % (inst_tkind(c, i) or "ordinary"))
         if is_nontrivial(c, o):
             distinct.add(json.dumps([c["classes"], c["ops"]]).replace(c["tag"], ""))
     SH = 125
@@ -1653,8 +1826,9 @@ def run(ctx):
         "rule": "histories: 1-2 generated classes (type(), or the source text of a module exec'd, half of those with "
                 "`from __future__ import annotations`) with 1-6 tunables over {bool,int,float,str,bytes,struct x2} x "
                 "{scalar,array}, hints in 5 syntactic forms x {evaluated, postponed, quoted, quoted argument}, subtables, writeDefault True/False/absent, inherited and "
-                "private tunables; 1-3 instances under components/autonomous/robot/other prefixes, pre-published topics, "
-                "6-27 interleaved PyWrite/PyRead/NtWrite/NtRead/re-Setup ops, closing reads; non-trivial = >=2 setups and "
+                "private tunables; owner classes ordinary / with __len__ / with __bool__ / list subclass (instances created "
+                "falsy, truthiness changing inside the history); 1-3 instances under components/autonomous/robot/other prefixes, pre-published topics, "
+                "6-27 interleaved PyWrite/PyRead/NtWrite/NtRead/re-Setup/truthiness ops, closing reads; non-trivial = >=2 setups and "
                 "all four of PyWrite, PyRead, NtWrite, NtRead occur; distinct up to the per-case name tag",
         "exhaustive": False,
         "exhaustive_parts": ["type grid: all %d points of Model.grid_decls (159 defaults x (no hint + 237 hints))%s"
@@ -1683,14 +1857,15 @@ def run(ctx):
                 return [v]
         if rob is None:
             return [{"kind": "robot", "fingerprint": "c09-magicrobot-binding",
-                     "what": "a real MagicRobot with two components of one class, an autonomous mode and robot-level "
+                     "what": "a real MagicRobot with two components of one class, a container-like (empty, falsy) component, an autonomous mode and robot-level "
                              "tunables (one quoted and one postponed type hint among them) does not come up: %s" % rlog[-400:]}]
         if rob is not None and not rob_ok:
             got = {k: ts for k, ts in rob["topics"]}
-            if got != ROBOT_DOC or rob["left"] != 9 or rob["right"] != 3:
+            if got != ROBOT_DOC or not robot_values_ok(rob):
                 return [{"kind": "robot", "fingerprint": "c09-magicrobot-binding",
                          "what": "a real MagicRobot publishes its tunables as %s (left.gain=%r right.gain=%r after "
-                                 "left.gain=9); documented: %s" % (json.dumps(got), rob["left"], rob["right"], json.dumps(ROBOT_DOC))}]
+                                 "left.gain=9; empty container-like component hopper: cap reads %s after hopper.cap=6); documented: %s"
+                                 % (json.dumps(got), rob["left"], rob["right"], rob.get("hopper"), json.dumps(ROBOT_DOC))}]
         # 2. everything recorded in this run, then a bigger batch
         for c, o in pairs:
             if oracle_case(c, o) is not None:
@@ -1728,11 +1903,14 @@ def replay(ctx, obj):
         c = retag(obj["case"], fresh_tag())
         for k, ds in enumerate(c["classes"]):
             es = eff_src(ds, case_src(c, k))
+            tk = case_tkind(c, k)
             if es:
-                text, env = class_source(ds, "Cls%d" % k, c["split"][k], es)
+                text, env = class_source(ds, "Cls%d" % k, c["split"][k], es, tk)
                 print(text + "".join("# %s = %r\n" % kv for kv in sorted(env.items())))
             else:
-                print("Cls%d = type(...): %s" % (k, "; ".join(describe_decl(d, 0) for d in ds)))
+                print("Cls%d = type(...)%s: %s" % (k, "" if tk is None else " [%s; instances are created falsy]" % (
+                    {"len": "defines __len__", "bool": "defines __bool__", "list": "subclass of list"}[tk]),
+                    "; ".join(describe_decl(d, 0) for d in ds)))
         o = exec_case(mt, c)
         for op, ob in zip(c["ops"], o):
             print("  %-90s -> %s" % (json.dumps(op)[:90], json.dumps(ob)[:120]))
@@ -1770,7 +1948,7 @@ def replay(ctx, obj):
     if kind == "robot":
         rob, log = run_robot(ctx.work)
         print(json.dumps(rob))
-        if rob is None or {k: ts for k, ts in rob["topics"]} != ROBOT_DOC or rob["left"] != 9 or rob["right"] != 3:
+        if rob is None or {k: ts for k, ts in rob["topics"]} != ROBOT_DOC or not robot_values_ok(rob):
             print("VIOLATION property=%s replay=(replayed)" % ctx.pid)
             return 1
         return 0
